@@ -327,3 +327,57 @@ fn exp_y3() {
     let z = it.next();
     assert!(x == Some(20) && y == Some(30) && z.is_none());
 }
+
+#[cfg(kani)]
+#[kani::proof]
+fn exp_reset_real() {
+    let (nr, nl) = (2, 2);
+    let ncat = 2;
+    let sys = sym_lexicon(&gen::LEX_A_AB_TRIE, &gen::LEX_A_AB_POST, gen::LEX_A_AB_NWORDS, nr, nl, LexType::System);
+    let mut table = Vec::with_capacity(4);
+    table.push(CharInfo::new(1, 0, false, true, 0).unwrap());
+    table.push(CharInfo::new(2, 1, true, false, 2).unwrap());
+    table.push(CharInfo::new(3, 1, true, false, 2).unwrap());
+    table.push(CharInfo::new(1, 0, false, true, 0).unwrap());
+    let prop = CharProperty::verif_from_parts(table, cat_names(ncat, None));
+    let unk = sym_unk(&[1, 1], nr, nl);
+    let dict = Dictionary::verif_from_parts(sys, None, ConnectorWrapper::Matrix(sym_matrix(nr, nl)), None, prop, unk);
+    let tok = Tokenizer::new(dict);
+    let mut w = tok.new_worker();
+    w.reset_sentence("\u{1}\u{2}");
+    let s = w.verif_sent();
+    assert!(s.len_char() == 2);
+    assert!(s.chars()[0] == '\u{1}' && s.chars()[1] == '\u{2}');
+    assert!(s.groupable(0) == 2);
+    w.verif_tokenize_with(matrix_of(tok.dictionary().verif_connector()));
+    let n = w.num_tokens();
+    assert!(n >= 1 && n <= 2);
+    core::mem::forget(w);
+}
+
+#[cfg(kani)]
+#[kani::proof]
+fn exp_public_api() {
+    let (nr, nl) = (2, 2);
+    let ncat = 2;
+    let sys = sym_lexicon(&gen::LEX_A_AB_TRIE, &gen::LEX_A_AB_POST, gen::LEX_A_AB_NWORDS, nr, nl, LexType::System);
+    let mut table = Vec::with_capacity(4);
+    table.push(CharInfo::new(1, 0, false, true, 0).unwrap());
+    table.push(CharInfo::new(2, 1, true, false, 2).unwrap());
+    table.push(CharInfo::new(3, 1, true, false, 2).unwrap());
+    table.push(CharInfo::new(1, 0, false, true, 0).unwrap());
+    let prop = CharProperty::verif_from_parts(table, cat_names(ncat, None));
+    let unk = sym_unk(&[1, 1], nr, nl);
+    let dict = Dictionary::verif_from_parts(sys, None, ConnectorWrapper::Matrix(sym_matrix(nr, nl)), None, prop, unk);
+    let tok = Tokenizer::new(dict);
+    let mut w = tok.new_worker();
+    w.reset_sentence("\u{1}\u{2}");
+    let s = w.verif_sent();
+    assert!(s.len_char() == 2);
+    assert!(s.chars()[0] == '\u{1}' && s.chars()[1] == '\u{2}');
+    assert!(s.groupable(0) == 2);
+    w.tokenize();
+    let n = w.num_tokens();
+    assert!(n >= 1 && n <= 2);
+    core::mem::forget(w);
+}
